@@ -97,6 +97,17 @@ func (p *Parser) Parse(source string) (Node, error) {
 		return nil, fmt.Errorf("parsing error: %w", err)
 	}
 
+	// Let every top-level macro know the macros defined next to it
+	var macros []*MacroNode
+	for _, node := range nodes {
+		if macro, ok := node.(*MacroNode); ok {
+			macros = append(macros, macro)
+		}
+	}
+	for _, macro := range macros {
+		macro.siblings = macros
+	}
+
 	return NewRootNode(nodes, 1), nil
 }
 
